@@ -45,6 +45,12 @@ def run_job(job, ctx):
             for msa in (None, 1000 + 2000 * (k - 1)):
                 case = c01.enum_case_oktas((job['first'],) + rest, msa)
                 ctx.record(case, check(case))
+        if k == 1:
+            for msa, buf in ((1000, 0), (1000, 1500), (600, 1500), (None, 1500)):
+                case = c01.enum_case_oktas((job['first'],), msa)
+                case['prms']['MSA_HIT_BUFFER'] = buf
+                case['rows'] = [[r[0], r[1], r[2], -1 if r[3] == 1 else r[3]] for r in case['rows']]
+                ctx.record(case, check(case))
         if job['first'] == 8:
             ctx.stats.exhaustive.append(f'all okta value tuples (0..8) of {k} stacked flat layers x MSA None / at the top base')
         return
